@@ -131,3 +131,35 @@ PROPS['C01'] = dict(
     stages=[dict(name='trace', bin='vtrace_race', args=['-prop', 'C01'], shards=shards(8, 14), par=14, crash_is_violation=True, crash_key='vnet:crash', timeout=1800)],
     need_counters=['hop_events', 'must_deliver', 'datagrams_received', 'napt_outbound', 'nat_inbound_must', 'must_drop_held', 'loopback_received', 'ended_unbound', 'nat_1to1_outbound'],
 )
+
+from racepost import post as _racepost
+_GOR = 'halt_on_error=0 log_path={work}/race.{stage}.{shard}'
+_race_bins = {
+    'races_a': dict(pkg='./cmd/races', overlay='shim', race=True),
+    'races_b': dict(pkg='./cmd/races', overlay='yield', race=True),
+    'pbuf_race': dict(pkg='./cmd/pbuf', overlay='shim', race=True),
+    'vfilter_race': dict(pkg='./cmd/vfilter', overlay='shim', race=True),
+    'pipes_race': dict(pkg='./cmd/pipes', race=True),
+    'vaddr_race': dict(pkg='./cmd/vaddr', overlay='shim', race=True),
+    'ctxio_race': dict(pkg='./cmd/ctxio', overlay='shim', race=True),
+    'udpdemux_race': dict(pkg='./cmd/udpdemux', overlay='shim', race=True),
+    'vtrace_race': dict(pkg='./cmd/vtrace', overlay='shim', race=True),
+    'dl_race': dict(pkg='./cmd/dl', overlay='shim', race=True),
+}
+PROPS['C19'] = dict(
+    level='exploration', builds=_race_bins, post=_racepost,
+    stages=[
+        dict(name='free', bin='races_a', shards=shards(11, 22), par=11, env={'GORACE': _GOR}, timeout=1800, replay='rerun'),
+        dict(name='delays', bin='races_b', shards=shards(11, 22), par=11, env={'GORACE': _GOR}, timeout=1800, replay='rerun', group='g2'),
+        dict(name='w-pbuf', bin='pbuf_race', args=['-prop', 'C06', '-mode', 'conc'], shards=shards(2, 4), par=8, env={'GORACE': _GOR}, group='g3', replay='rerun'),
+        dict(name='w-tbf', bin='vfilter_race', args=['-prop', 'C15'], shards=shards(1, 2), par=8, env={'GORACE': _GOR}, group='g3', replay='rerun'),
+        dict(name='w-delay', bin='vfilter_race', args=['-prop', 'C14'], shards=shards(1, 2), par=8, env={'GORACE': _GOR}, group='g3', replay='rerun'),
+        dict(name='w-pipes', bin='pipes_race', shards=shards(1, 2), par=8, env={'GORACE': _GOR}, group='g3', replay='rerun'),
+        dict(name='w-addr', bin='vaddr_race', shards=shards(1, 2), par=8, env={'GORACE': _GOR}, group='g3', replay='rerun'),
+        dict(name='w-ctxio', bin='ctxio_race', shards=shards(1, 2), par=8, env={'GORACE': _GOR}, group='g3', replay='rerun'),
+        dict(name='w-demux', bin='udpdemux_race', shards=shards(1, 2), par=8, env={'GORACE': _GOR}, group='g3', replay='rerun'),
+        dict(name='w-trace', bin='vtrace_race', args=['-prop', 'C01'], shards=shards(2, 4), par=8, env={'GORACE': _GOR}, group='g3', replay='rerun'),
+        dict(name='w-deadline', bin='dl_race', args=['-mode', 'real'], shards=shards(1, 2), par=8, env={'GORACE': _GOR}, group='g3', replay='rerun'),
+    ],
+    need_counters=['workloads_run'] + ['operations_' + w for w in ('build', 'socket', 'bind', 'tbf', 'filters', 'buffer', 'deadline', 'dpipe', 'listener', 'netctx', 'bridge')],
+)
